@@ -5,6 +5,7 @@ use crate::fw::Ctx;
 use crate::refcodec as rc;
 use crate::socks::{AnySock, Kind};
 use crate::world::{self, from_zmq, show_msg, tag_of, tagged, to_zmq, RawPeer, SwarmOpts};
+use crate::socks::AnySock as _AnySockAlias;
 use std::cell::RefCell;
 use std::rc::Rc;
 use zmq_simrt as rt;
@@ -426,5 +427,174 @@ pub fn check_delivery(ctx: &mut Ctx, out: &RecvOut) {
     if ctx.want_sample {
         let desc: Vec<String> = out.plans.iter().enumerate().map(|(i, p)| format!("sender{i}:{} id={:?} msgs={} batch={} end={:?}", p.stype, p.identity.as_ref().map(|x| x.len()), p.shapes.len(), p.batch, p.end)).collect();
         ctx.out.sample = Some(format!("{} receiver; {}; delivered={} errors={} abandoned_recvs={}", kind.name(), desc.join("; "), delivered, n_err, sh.abandoned));
+    }
+}
+
+// ------------------------------------------------------------------------------------------------
+// real sockets on both sides: PUSH->PULL, PUB->SUB, DEALER->DEALER, DEALER->ROUTER, REQ->REP
+// ------------------------------------------------------------------------------------------------
+pub struct RealOut {
+    pub kind: Kind,
+    pub results: Vec<Result<Vec<Vec<u8>>, String>>,
+    pub label: String,
+    pub end: rt::RunEnd,
+    pub senders_done: usize,
+    pub nsenders: usize,
+    pub sender_kind: Kind,
+}
+
+pub fn run_real(ctx: &mut Ctx, kind: Kind) -> RealOut {
+    world::swarm(ctx, SwarmOpts { allow_spurious: true, ..Default::default() });
+    let sender_kind = match kind {
+        Kind::Pull => Kind::Push,
+        Kind::Sub => Kind::Pub,
+        Kind::Dealer => Kind::Dealer,
+        Kind::Router => Kind::Dealer,
+        Kind::Rep => Kind::Req,
+        _ => Kind::Push,
+    };
+    let n = 1 + ctx.plan(3) as usize;
+    let counts: Vec<usize> = (0..n).map(|_| ctx.plan(9) as usize).collect();
+    let shapes: Vec<Vec<Vec<usize>>> = counts.iter().map(|c| (0..*c).map(|_| draw_shape(ctx, false)).collect()).collect();
+    let starts: Vec<u32> = (0..n).map(|_| ctx.plan(10) as u32).collect();
+    let closes: Vec<bool> = (0..n).map(|_| ctx.plan(3) == 0).collect();
+    let shared: Rc<RefCell<(Vec<Result<Vec<Vec<u8>>, String>>, String, usize)>> = Rc::new(RefCell::new((Vec::new(), String::new(), 0)));
+    let sh = shared.clone();
+    rt::task::spawn_local("app", async move {
+        let mut sock = AnySock::new(kind, None);
+        let ep = sock.bind("tcp://127.0.0.1:0").await.expect("bind").to_string();
+        sh.borrow_mut().1 = world::ep_key(&ep);
+        if kind == Kind::Sub {
+            let _ = sock.subscribe("").await;
+        }
+        for i in 0..n {
+            let (ep, sh, shp, start, close) = (ep.clone(), sh.clone(), shapes[i].clone(), starts[i], closes[i]);
+            rt::task::spawn_local("real-sender", async move {
+                for _ in 0..start {
+                    rt::task::yield_now().await;
+                }
+                let mut s = AnySock::new(sender_kind, Some(format!("s{i}").as_bytes()));
+                if s.connect(&ep).await.is_err() {
+                    return;
+                }
+                if sender_kind == Kind::Pub {
+                    // the subscription must have been processed before the first publish counts
+                    rt::task::idle().await;
+                }
+                for (seq, shape) in shp.iter().enumerate() {
+                    let m = tagged(i as u16, seq as u32, shape);
+                    if s.send(to_zmq(&m)).await.is_err() {
+                        break;
+                    }
+                    if sender_kind == Kind::Req && s.recv().await.is_err() {
+                        break;
+                    }
+                }
+                sh.borrow_mut().2 += 1;
+                if close {
+                    rt::task::idle().await;
+                    rt::count("fault_peer_close");
+                    let _ = s.close().await;
+                } else {
+                    world::park().await;
+                    drop(s);
+                }
+            });
+        }
+        let mut errs = 0;
+        loop {
+            match sock.recv().await {
+                Ok(m) => {
+                    let f = from_zmq(&m);
+                    sh.borrow_mut().0.push(Ok(f.clone()));
+                    if kind == Kind::Rep {
+                        let _ = sock.send(to_zmq(&[b"re".to_vec()])).await;
+                    }
+                }
+                Err(e) => {
+                    sh.borrow_mut().0.push(Err(e.to_string()));
+                    errs += 1;
+                    if errs > 40 {
+                        break;
+                    }
+                    rt::task::yield_now().await;
+                }
+            }
+        }
+        world::park().await;
+        drop(sock);
+    });
+    let end = ctx.sim.run(600_000);
+    let s = shared.borrow();
+    RealOut { kind, results: s.0.clone(), label: s.1.clone(), end, senders_done: s.2, nsenders: n, sender_kind }
+}
+
+/// per connection: the recv results attributed to it equal, in order, the complete messages on
+/// its tap (PUB senders may drop whole messages, so what was put on the wire is the reference)
+pub fn check_real(ctx: &mut Ctx, out: &RealOut) {
+    let kind = out.kind;
+    if out.end == rt::RunEnd::Budget {
+        ctx.violation("no_quiescence", format!("{} <- {} world did not become quiescent", kind.name(), out.sender_kind.name()));
+        return;
+    }
+    let conns = world::conns_of(ctx.sim, &out.label);
+    let mut got: std::collections::BTreeMap<u16, Vec<Vec<Vec<u8>>>> = Default::default();
+    let mut n_err = 0;
+    for r in &out.results {
+        match r {
+            Ok(f) => match tag_of(f) {
+                Some((o, _)) => got.entry(o).or_default().push(f.clone()),
+                None => ctx.violation("unattributable", format!("{} recv returned {}", kind.name(), show_msg(f))),
+            },
+            Err(_) => n_err += 1,
+        }
+    }
+    // a PUB socket flushes with a no-op waker: when it is closed, the tail of its last message may
+    // still be buffered, and the connection then ends inside a message. That is a cut by
+    // disconnect: one error for it is legitimate, the partial message must not surface.
+    let cut_conns = conns.iter().filter(|c| c.side_state(0).closed.is_some() && rc::parse_stream(&c.tap_from(0)).partial > 0).count();
+    if n_err > cut_conns {
+        ctx.violation("unexpected_error", format!("{} recv returned {n_err} errors although every peer is a well-behaved socket and only {cut_conns} connections ended inside a message; first: {:?}", kind.name(), out.results.iter().find_map(|r| r.as_ref().err())));
+    }
+    if cut_conns > 0 {
+        ctx.probe("sender_closed_with_partial_message_buffered");
+    }
+    let mut total = 0;
+    for c in &conns {
+        let tap = c.tap_from(0);
+        let parsed = rc::parse_stream(&tap);
+        let w = crate::oracle::check_library_stream(&tap, Some(out.sender_kind.name()), None);
+        for p in w.problems {
+            ctx.violation("wire_malformed", format!("{} sender wrote a malformed stream: {p}", out.sender_kind.name()));
+        }
+        let msgs = parsed.messages();
+        let Some(origin) = msgs.iter().find_map(|m| tag_of(m).map(|t| t.0)) else { continue };
+        let exp: Vec<Vec<Vec<u8>>> = msgs.iter().filter_map(|m| expected_recv(kind, m, None)).collect();
+        let g = got.remove(&origin).unwrap_or_default();
+        let strip = |m: &Vec<Vec<u8>>| -> Vec<Vec<u8>> { if kind == Kind::Router { m[1..].to_vec() } else { m.clone() } };
+        let gs: Vec<_> = g.iter().map(strip).collect();
+        let es: Vec<_> = exp.iter().map(strip).collect();
+        total += gs.len();
+        if gs != es {
+            let at = gs.iter().zip(es.iter()).position(|(a, b)| a != b).unwrap_or(gs.len().min(es.len()));
+            let clause = if gs.len() < es.len() && gs[..] == es[..gs.len()] { "not_delivered_at_quiescence" } else if gs.len() > es.len() { "extra_or_duplicate" } else { "lost_or_reordered" };
+            ctx.violation(clause, format!("{} <- {} connection of origin {origin}: {} messages on the wire, {} delivered, first difference at #{at}: got {:?} expected {:?}", kind.name(), out.sender_kind.name(), es.len(), gs.len(), gs.get(at).map(|m| show_msg(m)), es.get(at).map(|m| show_msg(m))));
+        }
+        if kind == Kind::Router {
+            let want = format!("s{origin}").into_bytes();
+            if let Some(bad) = g.iter().find(|m| m[0] != want) {
+                ctx.violation("router_label_wrong", format!("origin {origin} announced identity s{origin} but was labelled {}", world::hex(&bad[0])));
+            }
+        }
+    }
+    for (o, g) in got {
+        ctx.violation("unattributable", format!("{} messages tagged with origin {o} were delivered but no connection carried them", g.len()));
+    }
+    if out.nsenders > 1 && total > 0 {
+        ctx.nontrivial();
+    }
+    ctx.probe_n("messages_delivered", total as u64);
+    if ctx.want_sample {
+        ctx.out.sample = Some(format!("{} bound, {} real {} sockets connecting and sending; {} delivered, {} senders finished", kind.name(), out.nsenders, out.sender_kind.name(), total, out.senders_done));
     }
 }
